@@ -202,3 +202,19 @@ Proof.
   intros Hd. unfold acc_roundtrip, run_roundtrip. rewrite string_from_canon by assumption.
   cbn [of_res]. rewrite roundtrip by assumption. apply out_eqb_refl.
 Qed.
+
+(* the macro's oracle predicate: a literal that needs no blank removed compiles to the Decimal the
+   grammar prescribes, or does not compile *)
+Theorem macro_acc pf s : Forall byte_ok s -> len s < 2 ^ 62 -> strip_sign_blank s = s -> known_str s = 0 ->
+  acc_str Smacro s (run_str pf Smacro s) = true.
+Proof.
+  intros Hb Hl Hs Hk. cbn [acc_str run_str].
+  pose proof (macro_agrees_total pf s Hb Hl) as A. rewrite Hs in A.
+  pose proof (from_str_acc pf s Hb Hl Hk) as F.
+  rewrite from_str_total in A, F by assumption.
+  unfold acc_macro, acc_parse in *. unfold same_result in A.
+  destruct (dec_macro pf s) as [[d|e]| | |]; try contradiction; cbn [out_pres of_res] in *.
+  - destruct (from_str_ref s) as [d'|e']; [|contradiction]. subst d'. exact F.
+  - destruct (from_str_ref s) as [d'|e']; [contradiction|]. cbn [of_res] in F.
+    destruct (parse_spec s); [reflexivity|reflexivity|]. destruct e'; discriminate.
+Qed.
